@@ -1,6 +1,7 @@
 //! C05 — foreign-field and big-integer gadgets are complete and sound.
 
 mod bops;
+mod c25;
 mod common;
 mod dec;
 mod fops;
@@ -705,6 +706,80 @@ fn noncanonical_input_plan(spec: &FieldSpec, e_index: usize, x: &BigUint) -> Opt
     Some(plan)
 }
 
+/// Honest exploration and 1-deviation sweep of the emulated-field registry on a Curve25519 field.
+fn c25_group<K: c25::C25Field>(cx: &mut Ctx, tier: Tier, seed: u64)
+where
+    midnight_circuits::field::foreign::params::MultiEmulationParams: midnight_circuits::field::foreign::params::FieldEmulationParams<F, K>,
+{
+    use vgad::{Scratch, ScratchCase};
+    let spec = K::spec();
+    let depth = if tier.is_thorough() { Depth::Full } else { Depth::Reduced };
+    let mut cases: Vec<(String, Scratch<c25::XCase<K>>)> = vec![];
+    let mut seen = std::collections::HashSet::new();
+    // input-major order (first input tuple of every operation, then the second, ...): a wall cap
+    // cuts every operation at the same depth instead of dropping the operations listed last
+    let per_op: Vec<(FOp, Vec<Vec<V>>)> = field_ops(&spec, depth, tier, seed).into_iter().map(|op| (op.clone(), field_inputs(&spec, &op, tier, seed, depth))).collect();
+    let deepest = per_op.iter().map(|(_, v)| v.len()).max().unwrap_or(0);
+    for ii in 0..deepest {
+        for (op, inputs) in &per_op {
+            if let Some(ins) = inputs.get(ii) {
+                let c = c25::XCase::<K>::new(op.clone(), ins.clone());
+                if seen.insert(c.key()) {
+                    cases.push((c.key(), Scratch(c)));
+                }
+            }
+        }
+    }
+    // one fixed configuration: the smallest k at which the largest operations synthesise
+    let mut k = 0u32;
+    let mut seen_ops = std::collections::HashSet::new();
+    for (_, c) in &cases {
+        if c.0.expect_sat() && seen_ops.insert(format!("{:?}", c.0.op)) {
+            match vgad::scratch_min_k(&c.0, 10, 16) {
+                Some(kk) => k = k.max(kk),
+                None => cx.machinery_error(format!("from-scratch circuit of {} does not fit k <= 16", c.0.op())),
+            }
+        }
+    }
+    cx.extra(&format!("{}_k", K::SHORT), json!(k));
+    let info: Mutex<HashMap<String, (u64, (u64, u64))>> = Mutex::new(HashMap::new());
+    cx.next_group_share(tier.pick(5.0, 400.0));
+    cx.run_cases(&format!("{}-honest", K::SHORT), &cases, |c| {
+        let mut out = CaseOut::batch();
+        let rep = vgad::explore_honest(c, k, &mut out);
+        let (s, e) = marks();
+        if rep.outcome == Outcome::Sat && c.0.expect_sat() {
+            info.lock().unwrap().insert(c.0.key(), (rep.n_assign, (s, e)));
+        }
+        out.sample = Some(json!({"case": c.0.key(), "k": k, "honest": rep.outcome.name(), "assignments": rep.n_assign, "op_assignment_range": [s, e]}));
+        out
+    });
+    let info = info.into_inner().unwrap();
+    // 1-deviation sweep: first input tuple of every operation, the operation's own assignments
+    // with a stride (quick: at most 24 indices per operation; thorough: at most 400)
+    let mut fcases: Vec<(String, (Scratch<c25::XCase<K>>, Vec<u64>))> = vec![];
+    let mut done_ops = std::collections::HashSet::new();
+    for (key, c) in &cases {
+        let Some((_n, (s, e))) = info.get(key) else { continue };
+        if !done_ops.insert(format!("{:?}", c.0.op)) || e <= s {
+            continue;
+        }
+        let max = tier.pick(24u64, 400u64);
+        let stride = ((e - s) / max).max(1);
+        let idxs: Vec<u64> = (*s..*e).step_by(stride as usize).collect();
+        for (ci, chunk) in idxs.chunks(8).enumerate() {
+            fcases.push((format!("{key}#{ci}"), (c.clone(), chunk.to_vec())));
+        }
+    }
+    let faults: Vec<_> = vgad::default_faults(seed).into_iter().filter(|(n, _)| tier.is_thorough() || ["+1", "zero"].contains(n)).collect();
+    cx.next_group_share(tier.pick(5.0, 400.0));
+    cx.run_cases(&format!("{}-faults", K::SHORT), &fcases, |(c, idxs)| {
+        let mut out = CaseOut::batch();
+        vgad::explore_faults(c, k, idxs, &faults, &mut out);
+        out
+    });
+}
+
 fn main() {
     let mut cx = Ctx::from_args("C05", Level::FaultEnumeration);
     cx.worker_rayon_threads = Some(1);
@@ -1356,7 +1431,10 @@ fn main() {
     if tier == Tier::Quick {
         cx.note("quick: secp256k1 base field with the full operation list; secp256k1 scalar field and BLS12-381 base field with a reduced list; BigUint widths <= 193 bits");
     }
-    cx.note("not covered: Curve25519 field chips (reachable only through FromScratch test circuits, not through ZkStdLib); assign_as_public_input and BigUintGadget::constrain_as_public_input (they write the instance column themselves, outside the exposure log of the engine)");
+    // ---- Curve25519 fields (from-scratch chips, see c25.rs): the same registry and references
+    c25_group::<midnight_curves::curve25519::Fp>(&mut cx, tier, seed);
+    c25_group::<midnight_curves::curve25519::Scalar>(&mut cx, tier, seed);
+    cx.note("Curve25519 field chips: honest runs of the whole registry and a 1-deviation sweep with a stride, through FromScratch circuits (not the +m re-representation, pair and laws phases). Not covered: assign_as_public_input and BigUintGadget::constrain_as_public_input (they write the instance column themselves, outside the exposure log of the engine)");
     if only.is_none() && cx.remaining_s() > 0.0 {
         let sat = cx.class_count("honest:honest:sat");
         let unsat = cx.class_count("honest:honest:unsat") + cx.class_count("honest:honest:synth-err") + cx.class_count("honest:honest:crash-unsat");
